@@ -17,8 +17,8 @@ func init() {
 	fw.Register(&fw.Check{
 		ID:    "C16",
 		Level: "model_checking",
-		Rule: "programs = call chains main -> f0 -> ... -> fd (d = 0..4; thorough 0..6) x 7 failure kinds (throw, failing operator, failing builtin, wrong argument count, index error, call of a non-callable, error raised in a module body) " +
-			"x 4 call forms (statement, x := f(), return f(), argument of another call) x 4 layouts (no/blank/comment/two blank lines between statements) x 3 positions of the statement in its body x " +
+		Rule: "programs = call chains main -> f0 -> ... -> fd (d = 0..4; thorough 0..6) x 11 failure kinds (throw, failing operator, failing builtin, wrong argument count, index error, call of a non-callable, the same with operands that the optimizer folds - builtin call on constants, const identifier, constant arithmetic -, error raised in a module body) " +
+			"x 6 call forms (statement, x := f(), return f(), argument of another call, operand next to a folded constant, element after a folded constant) x 4 layouts (no/blank/comment/two blank lines between statements) x 3 positions of the statement in its body x " +
 			"3 definition styles (top level, nested in the caller, in an imported source module = second file); thorough also mixes the call forms per level. " +
 			"Model = the line list known by construction; each program is run under {optimizer on, off} x {plain, encode->decode} x {k = 0, 1, 3 prepended blank lines}: " +
 			"StackTrace() (outermost first, consecutive duplicates collapsed) must equal the model shifted by k, every position must name the file it lies in and lie inside it. " +
@@ -65,6 +65,11 @@ var failures = []struct {
 	{"argcount", "q := two(1)", "two := func(a, b) { return a }"},
 	{"index", "q := [1][5]", ""},
 	{"notcallable", "q := zero()", "zero := 0"},
+	// sub-expressions that the optimizer replaces by a constant, as operands of the failing operation
+	{"operator-folded-operand", "q := len(\"abcd\") * 25 / zero", "zero := 0"},
+	{"operator-const-operand", "q := kk / zero", "const kk = 10; zero := 0"},
+	{"index-folded-operand", "q := [1, 2][2 * 1.5 + len(\"ab\")]", ""},
+	{"builtin-folded-argument", "q := int([1 + 2, !true])", ""},
 }
 
 func callStmt(form int, callee string) string {
@@ -75,10 +80,17 @@ func callStmt(form int, callee string) string {
 		return "r := " + callee + "()"
 	case 2:
 		return "return " + callee + "()"
-	default:
+	case 3:
 		return "r := id(" + callee + "())"
+	case 4:
+		// a folded constant directly after / before the call
+		return "r := " + callee + "() + len(\"ab\") * 2"
+	default:
+		return "r := [len(\"ab\") * 2, " + callee + "()]"
 	}
 }
+
+const nForms = 6
 
 type pos struct {
 	file string
@@ -236,10 +248,10 @@ func run16(c *fw.Ctx) {
 	if c.Thorough() {
 		maxD = 6
 	}
-	c.Family("uniform-forms", fmt.Sprintf("d <= %d x %d failures x 4 forms x 4 layouts x 3 positions x 4 styles", maxD, len(failures)))
+	c.Family("uniform-forms", fmt.Sprintf("d <= %d x %d failures x 6 forms x 4 layouts x 3 positions x 4 styles", maxD, len(failures)))
 	for d := 0; d <= maxD; d++ {
 		for fi := range failures {
-			for form := 0; form < 4; form++ {
+			for form := 0; form < nForms; form++ {
 				forms := make([]int, d+1)
 				for i := range forms {
 					forms[i] = form
